@@ -121,6 +121,23 @@ def explore(ck, n, atm, np, xrun=True):
         for idx in [(0, 0), (1, 2)]:
             if float(va[idx]) != float(getattr(atm, fn)(float(arr[idx]))) or float(getattr(atm, fn)(np.array(arr[idx]))) != float(va[idx]):
                 ck.violation("other", f"{fn}: array element differs from scalar call at {float(arr[idx])!r}", {"fn": fn, "args": [float(arr[idx])]})
+    # ---------------- input kinds of the saturation functions: python float, numpy scalar, 0-d array, 1-d, n-d
+    for fn in ("e_eq_ice_mk", "e_eq_water_mk", "e_eq_mixed_mk"):
+        f = getattr(atm, fn)
+        for T in (rng.uniform(100, 400), TT - 23.0, TT, rng.uniform(TT - 23, TT)):
+            ck.case(key=("kinds", fn, T), kind="input-kinds")
+            ref = float(f(float(T)))
+            for label, arg in (("numpy scalar", np.float64(T)), ("0-d array", np.array(T)), ("1-d array", np.array([T])),
+                               ("2-d array", np.array([[T, T]])), ("float32 0-d", np.array(np.float32(T)))):
+                try:
+                    got = np.asarray(f(arg))
+                except Exception as e:          # noqa: BLE001
+                    ck.violation("input-kind-raised", f"{fn}({label} {T!r}) raised {type(e).__name__}: {str(e)[:80]}", {"fn": fn + "/kind", "args": [float(T), label]})
+                    continue
+                want_shape = np.shape(arg)
+                tol = 3e-4 if "float32" in label else 0.0      # float32 evaluation: exponent of order 60 with 6e-8 relative rounding per term
+                if got.shape != want_shape or np.any(np.abs(got.astype(float) - ref) > tol * ref):
+                    ck.violation("other", f"{fn}({label} {T!r}) = {got.tolist()!r} (shape {got.shape}), float call gives {ref!r}", {"fn": fn + "/kind", "args": [float(T), label]})
     # ---------------- saturation pressures
     Ts = [rng.uniform(100, 400) for _ in range(n)] + [TT, TT - 23.0, 100.0, 400.0, 273.15, 250.16]
     for T in Ts:
